@@ -2,8 +2,9 @@
   C14 — One LAN interface can be shared by threads, including its keep-alive.
 
   Model: `PyIpmi.Threads` (Model/Threads.lean) — any number of application threads, each making any
-  number of `_send_and_receive` calls cut at every shared access (the racy `next_sequence_number`
-  update is OUTSIDE the lock exactly as in the source); the interface's own keep-alive thread as the
+  number of `_send_and_receive` calls cut at every shared access (`Cfg.seqLocked` selects where the IPMB
+  sequence number is advanced and read: `true` = inside the lock block, the source with fixes/C04-2.diff;
+  `false` = before it, as shipped); the interface's own keep-alive thread as the
   loop of `call_repeatedly` (`while not stopped.wait(interval): func()`, the interval elapsing any
   number of times, at any moment); and — optionally — one application thread that ends with
   `Rmcp.close_session` (stop the keep-alive, Close Session through the same locked path, then
@@ -40,9 +41,19 @@
                                  model accepts ends in a state whose wire log and results the
                                  monitor accepts (used by the correspondence: the real wire log
                                  must equal the model's)
-  * `racy_seq_is_harmless`       the unlocked `next_sequence_number` update does lose updates
-                                 (a concrete schedule puts two datagrams with the same request
-                                 sequence and command on the wire) — and the property still holds there
+  * `rq_seq_distinct_on_wire`    with the sequence number allocated inside the lock block (`seqLocked`): under
+                                 EVERY schedule every transmitted datagram carries an IPMB request sequence
+                                 number different from the one transmitted before it, whichever threads sent
+                                 them (clause (Q) of Spec/Threads.lean; property C04 words it, its quantifier
+                                 names schedules)
+  * `late_reply_cannot_match`    … and at the moment a thread transmits, the number in its header differs from
+                                 the number on the latest datagram: the reply to THAT datagram, should it
+                                 arrive late, fails the sequence comparison of the filter of this request
+  * `racy_seq_asShipped_counterexample`  as shipped (counter advanced and read before the lock) a concrete
+                                 schedule - A increments, B increments, B reads, A reads - puts two consecutive
+                                 datagrams with the same request sequence number and command on the wire
+                                 ((Q) is false; the fault-free clauses X, S, O, C still hold on that run, which
+                                 is why only a late reply makes the defect observable: the check withholds one)
   * `shipped_without_close_holds`  the variant AS SHIPPED satisfies all of the above as long as no thread
                                  closes the session (the close-free case: the theorems of the first version)
 
@@ -56,6 +67,7 @@
                                  the keep-alive's request precedes Close Session, all clauses hold.
 -/
 import PyIpmi.Lemmas.ThreadsProgress
+import PyIpmi.Lemmas.ThreadsSeq
 import PyIpmi.Gen.Threads
 namespace PyIpmi.Props.C14
 open PyIpmi.Threads PyIpmi.Spec.Threads
@@ -65,9 +77,10 @@ open PyIpmi.Threads PyIpmi.Spec.Threads
 working tree, is the one the step function of the model hard-wires (one lock block holding packing,
 transmission and reception; sequence bump before it; nothing re-queued; the keep-alive and both public
 entry points run this program; the loop looks at the event only in `wait`; `close_session` = stopper,
-`activated` test, locked Close Session, `activated = False`).  The stopper's behaviour is the model's
-variant.  A change of that shape in `/repo` regenerates `Gen/Threads.lean` and this stops being provable. -/
-theorem source_shape : PyIpmi.Gen.Threads.shape = Shape.expected PyIpmi.Gen.Threads.shape.stopperJoins := by
+`activated` test, locked Close Session, `activated = False`).  The stopper's behaviour and the place of the
+sequence-number allocation (inside the lock block or before it) are the model's variants.  A change of that shape in `/repo` regenerates `Gen/Threads.lean` and this stops being provable. -/
+theorem source_shape : PyIpmi.Gen.Threads.shape =
+    Shape.expected PyIpmi.Gen.Threads.shape.stopperJoins PyIpmi.Gen.Threads.shape.seqInLock := by
   decide
 
 theorem inv_all_schedules (c : Cfg) (hc : c.Safe) (hs : c.sessSeq ≤ 0xffffffff) (sched : List Nat) :
@@ -154,16 +167,43 @@ def sameRqOnWire (w : List WEv) : Bool :=
 
 def allDone (s : Sys) : Bool := s.thr.all fun th => th.pc == .done
 
-/-- two threads, one Get Device ID each, session sequence starting at 7 -/
-def racyCfg : Cfg := { nextSeq := 4, sessSeq := 7, xl := 0, threads := [(1, 1), (1, 1)] }
-/-- both load `next_sequence_number` before either stores it -/
-def racySched : List Nat := [0, 1, 0, 1, 0, 1] ++ List.replicate 9 0 ++ List.replicate 9 1
+/-- With the sequence number allocated inside the lock block: for every configuration, every number of
+threads and calls, every schedule — consecutive transmissions carry different IPMB request sequence numbers. -/
+theorem rq_seq_distinct_on_wire (c : Cfg) (hl : c.seqLocked = true) (hc : c.Safe) (hs : c.sessSeq ≤ 0xffffffff)
+    (sched : List Nat) : rqDistinct (run (init c) sched).wireChron = true := by
+  have hq := run_seq (init_inv c hs) (init_tear c hc) (init_seq c hl) sched
+  rw [Sys.wireChron, ← rqOk_eq]
+  exact hq.ok
 
-theorem racy_seq_is_harmless :
-    sameRqOnWire (run (init racyCfg) racySched).wire = true ∧
-    allDone (run (init racyCfg) racySched) = true ∧
-    accepts (run (init racyCfg) racySched).wireChron (run (init racyCfg) racySched).results = true :=
-  ⟨by decide, by decide, monitor_accepts_all_schedules racyCfg ⟨Or.inl rfl, by decide⟩ (by decide) racySched⟩
+/-- … and whenever a thread is about to transmit, the number in its header is not the number of the
+latest datagram on the wire: a late reply to that datagram (it echoes its number) cannot pass the
+sequence comparison of this request's filter. -/
+theorem late_reply_cannot_match (c : Cfg) (hl : c.seqLocked = true) (hc : c.Safe) (hs : c.sessSeq ≤ 0xffffffff)
+    (sched : List Nat) (t : Nat) (th : Thr) (h : (run (init c) sched).thr[t]? = some th) (hp : th.pc = .send)
+    (r : Nat) (hr : lastRq (run (init c) sched).wire = some r) : r ≠ th.hdr := by
+  have hi := inv_all_schedules c hc hs sched
+  have hq := run_seq (init_inv c hs) (init_tear c hc) (init_seq c hl) sched
+  have hown : (run (init c) sched).lock = some t := (hi.1.owner t th h).mp (by rw [hp]; rfl)
+  have hh := hq.holder t th h hown
+  simp only [HolderSeq, hp] at hh
+  exact hh.2 r hr
+
+/-- two threads, one Get Device ID each, session sequence starting at 7; sequence number allocated before
+the lock (as shipped) -/
+def racyCfg : Cfg := { nextSeq := 4, sessSeq := 7, xl := 0, threads := [(1, 1), (1, 1)], seqLocked := false }
+/-- A loads, B loads, A stores, B stores (both 5), A reads 5, B reads 5 — then each runs its exchange -/
+def racySched : List Nat := [0, 1, 0, 1, 0, 1] ++ List.replicate 9 0 ++ List.replicate 9 1
+/-- "A increments, B increments, B reads, A reads": A load/store (5), B load/store (6), B reads 6, A reads 6 -/
+def racySched2 : List Nat := [0, 0, 1, 1, 1, 0] ++ List.replicate 9 1 ++ List.replicate 9 0
+
+theorem racy_seq_asShipped_counterexample :
+    rqDistinct (run (init racyCfg) racySched).wireChron = false ∧
+    rqDistinct (run (init racyCfg) racySched2).wireChron = false ∧
+    sameRqOnWire (run (init racyCfg) racySched2).wire = true ∧
+    allDone (run (init racyCfg) racySched2) = true ∧
+    accepts (run (init racyCfg) racySched2).wireChron (run (init racyCfg) racySched2).results = true :=
+  ⟨by decide, by decide, by decide, by decide,
+   monitor_accepts_all_schedules racyCfg ⟨Or.inl rfl, by decide⟩ (by decide) racySched2⟩
 
 /-- While some thread is neither finished nor (the keep-alive loop) asleep for good, some thread can
 move.  In particular the join cannot deadlock. -/
@@ -212,7 +252,8 @@ theorem shipped_without_close_holds (c : Cfg) (_hj : c.join = false) (hcl : c.cl
 /-- one application thread that only closes the session (thread 0), the keep-alive thread (thread 1)
 whose interval elapses once; stopper as shipped -/
 def shippedCfg : Cfg :=
-  { nextSeq := 4, sessSeq := 7, xl := 0, threads := [(0, 1)], ka := some 1, closer := some 0, join := false }
+  { nextSeq := 4, sessSeq := 7, xl := 0, threads := [(0, 1)], ka := some 1, closer := some 0, join := false,
+    seqLocked := false }
 /-- the interval elapses (keep-alive: `wait` returned False) — then `close_session` runs to its end
 (stopper, Close Session, `activated = False`) — then the keep-alive makes the call it had decided on -/
 def lateTickSched : List Nat := [1] ++ List.replicate 17 0 ++ List.replicate 11 1
@@ -243,13 +284,24 @@ theorem joined_same_schedule_is_clean :
 
 /-! ### non-vacuity -/
 
+-- the same two threads and the same schedules with the sequence number allocated inside the lock block:
+-- thread 1 cannot enter while thread 0 is between "take the lock" and "release" - the datagrams carry 5 and 6
+def lockedCfg : Cfg := { racyCfg with seqLocked := true }
+example : (run (init lockedCfg) (racySched ++ List.replicate 12 1)).wireChron =
+    [.tx 0 0 8 5 1, .rx 0 0, .tx 1 1 9 6 1, .rx 1 1] := by decide +kernel
+example : (run (init lockedCfg) (racySched2 ++ List.replicate 12 1 ++ List.replicate 12 0)).wireChron =
+    [.tx 0 0 8 5 1, .rx 0 0, .tx 1 1 9 6 1, .rx 1 1] := by decide +kernel
+example : rqDistinct [.tx 0 0 8 5 1, .rx 0 0, .tx 1 1 9 5 1, .rx 1 1] = false ∧
+    rqDistinct [.tx 0 0 8 5 1, .rx 0 0, .tx 1 1 9 6 1, .rx 1 1, .tx 0 2 10 5 1] = true := by decide
+
 -- the racy run really exchanges two datagrams and returns two results
 example : (run (init racyCfg) racySched).wireChron =
     [.tx 0 0 8 5 1, .rx 0 0, .tx 1 1 9 5 1, .rx 1 1] := by decide
 example : (run (init racyCfg) racySched).results = [⟨0, 0, some 0⟩, ⟨1, 1, some 1⟩] := by decide
 
 -- two workers and the keep-alive, MD5 packing, wrap of the session sequence
-def wrapCfg : Cfg := { nextSeq := 63, sessSeq := 0xfffffffe, xl := 1, threads := [(2, 1), (1, 4)], ka := some 1 }
+def wrapCfg : Cfg :=
+  { nextSeq := 63, sessSeq := 0xfffffffe, xl := 1, threads := [(2, 1), (1, 4)], ka := some 1, seqLocked := false }
 def wrapSched : List Nat :=
   [2, 0, 0, 1, 0, 1, 1, 2, 2] ++ List.replicate 40 1 ++ List.replicate 40 0 ++ List.replicate 40 2
 example : wrapCfg.Safe := ⟨Or.inl rfl, by decide⟩
@@ -261,7 +313,8 @@ example : (run (init wrapCfg) wrapSched).thr.map (·.pc) = [.done, .done, .kaWai
 -- two workers, a closing thread with one call of its own, the keep-alive firing twice (joining stopper):
 -- the closing thread waits for the workers, then for the keep-alive, then closes
 def closeCfg : Cfg :=
-  { nextSeq := 0, sessSeq := 0x20, xl := 0, threads := [(1, 1), (1, 4), (1, 8)], ka := some 2, closer := some 2 }
+  { nextSeq := 0, sessSeq := 0x20, xl := 0, threads := [(1, 1), (1, 4), (1, 8)], ka := some 2, closer := some 2,
+    seqLocked := false }
 def closeSched : List Nat :=
   [3, 2, 2, 0, 3, 3] ++ List.replicate 14 2 ++ List.replicate 14 3 ++ List.replicate 14 0 ++ List.replicate 14 1 ++
     List.replicate 30 2 ++ List.replicate 14 3 ++ List.replicate 30 2
